@@ -340,6 +340,8 @@ def check_failed_change(out, rng, spec):
             if (after[0][4], after[1]) != (before[0][4], before[1]):
                 out.fail(f"failed-change-meta-{tag}", f"after the failed {attr} change metadata / covariance differ", inp,
                          observed=str(after[0][4])[:300], expected=str(before[0][4])[:300])
+            elif not all(math.isfinite(float(v)) for v in c0):
+                out.tally("failed-change-degenerate-state-skipped")   # e.g. tle/keplerian elements of a state that is hyperbolic relative to a rotating frame: NaN before the call
             elif not same_physical(c0, cart_state(sv)):
                 out.fail(f"failed-change-values-{tag}", f"after the failed {attr} change the physical state differs", inp,
                          observed=list(map(float, cart_state(sv))), expected=list(map(float, c0)))
@@ -373,11 +375,11 @@ def check_access(out, rng, form):
     for i, nm in enumerate(names):
         for label in [nm] + aliases.get(nm, []) + [al for al in Form.alt if al == nm]:
             sv = make_state(rng, spec)
-            ref = float(np.asarray(sv)[i])
+            ref = float(np.asarray(sv)[i]).hex()     # hex strings: NaN elements (degenerate states) compare equal to themselves
             out.count(key=(form, label), kind="access", form=form)
             fam = f"access-{form}-{label}"
             try:
-                got = [float(getattr(sv, label)), float(sv[label]), float(sv[i])]
+                got = [float(getattr(sv, label)).hex(), float(sv[label]).hex(), float(sv[i]).hex()]
             except Exception as e:
                 out.fail(fam, f"reading element '{label}' (slot {i}) of a {form} state raises {type(e).__name__}: {e}",
                          {"form": form, "name": label, "slot": i, "spec": spec}, observed=repr(e), expected=ref)
@@ -387,7 +389,7 @@ def check_access(out, rng, form):
                 continue
             for how in ("attr", "item"):
                 sv = make_state(rng, spec)
-                old = [float(v) for v in np.asarray(sv)]
+                old = [float(v).hex() for v in np.asarray(sv)]
                 try:
                     if how == "attr":
                         setattr(sv, label, 0.123)
@@ -396,8 +398,8 @@ def check_access(out, rng, form):
                 except Exception as e:
                     out.fail(fam, f"writing element '{label}' of a {form} state raises {type(e).__name__}", {"form": form, "name": label, "slot": i, "spec": spec}, observed=repr(e))
                     continue
-                new = [float(v) for v in np.asarray(sv)]
-                exp = old[:i] + [0.123] + old[i + 1:]
+                new = [float(v).hex() for v in np.asarray(sv)]
+                exp = old[:i] + [(0.123).hex()] + old[i + 1:]
                 if new != exp or label in sv._data:
                     out.fail(fam, f"writing '{label}' does not change exactly slot {i} in form {form}", {"form": form, "name": label, "slot": i, "spec": spec}, observed=new, expected=exp)
     # names belonging only to other forms
@@ -869,6 +871,9 @@ def compare_case(ops, kep, reply):
         return ("model refused the request", reply[:200], None)
     evl = Evaluator(real)
     bits = {}
+    import numpy as np
+    if any(not np.all(np.isfinite(np.frombuffer(b))) for _, _, vals, _ in res for b in vals):
+        return "degenerate"   # NaN elements (state hyperbolic relative to a rotating frame in tle form, ...): conversions of NaN are not compared
     for n, (op, (status, s, vals, problems), part) in enumerate(zip(ops, res, parts)):
         mstatus, _, mdump = part.partition(" ")
         if problems:
@@ -979,6 +984,9 @@ def correspondence(ctx):
             out.tally(f"op={kd}")
         for part in m.split(" || "):
             out.tally("status=" + part.split(" ")[0])
+        if d == "degenerate":
+            out.tally("skipped=non-finite-values")
+            continue
         if d is not None:
             out.fail("heap-sequence", d[0], {"ops": ops, "kep": kep}, observed=str(d[1])[:600], expected=str(d[2])[:600])
         out.sample({"line": "heap " + " ; ".join(" ".join(op) for op in ops), "reply": m[:200]}, limit=3)
